@@ -47,6 +47,10 @@ class _SktimeForecaster(BaseForecaster):
         X : pd.DataFrame, optional (default=None)
             Exogenous time series
         """
+        # fitting (again) starts from the unfitted state, so that the horizon checks
+        # of a re-fit are those of a first fit
+        self._is_fitted = False
+
         # set initial training data
         self._y, self._X = check_y_X(
             y, X, allow_empty=False, enforce_index_type=enforce_index_type
